@@ -3,7 +3,7 @@ Driver for C16.  Request line:
   cfg=<share><leak><lexical> fuel=<n> P=<program in prefix notation, tokens separated by one space>
 program tokens:
   lit <int> | dlit <int> | elit <int> | inst <integer|decimal|double|boolean> E | tt | ff | emp | var <n> | dot | pos | last | add E E | sub E E | mul E E | gt E E | eq E E
-  | cat E E | ite E E E | for <x> E E | let <x> E E | fn <tok> <k> <p1>..<pk> E | named <builtin>
+  | cat E E | ite E E E | for <x> E E | let <x> E E | fn <tok> <k> <p1>..<pk> E | tfn <tok> <k> <p1>..<pk> <t1>..<tk> <rt> E (types: item|atomic|integer|decimal|double|boolean|func + optional ?*+) | named <builtin>
   | call E <k> A1..Ak   (A = `?` or E) | spart <builtin> <k> A1..Ak | par E | smap E E | forEach E E | filter E E
   | foldL E E E | foldR E E E | pairs E E E | sortK E E | apply E <k> E1..Ek
   (argument order as in XPath: forEach S F, foldL S Z F, pairs S1 S2 F, sortK S F, apply F [M…])
@@ -21,6 +21,18 @@ def parseBuiltin : String → Option Builtin
   | "remove" => some .remove | "insert-before" => some .insertBefore
   | "position" => some .position0 | "last" => some .last0 | "data" => some .data0
   | _ => none
+
+def parseSTy (t : String) : Option STy :=
+  let (base, occ) :=
+    if t.endsWith "*" then (t.dropEnd 1 |>.toString, Occ.star)
+    else if t.endsWith "+" then (t.dropEnd 1 |>.toString, Occ.plus)
+    else if t.endsWith "?" then (t.dropEnd 1 |>.toString, Occ.opt)
+    else (t, Occ.one)
+  let it : Option ITy := match base with
+    | "item" => some .item | "atomic" => some .atomic | "integer" => some .integer
+    | "decimal" => some .decimal | "double" => some .double | "boolean" => some .boolean
+    | "func" => some .func | _ => none
+  it.map fun i => { it := i, occ := occ }
 
 mutual
 partial def parseE : List String → Option (Expr × List String)
@@ -65,6 +77,14 @@ partial def parseE : List String → Option (Expr × List String)
     let ps ← (r.take k).mapM nat?
     let (b, r) ← parseE (r.drop k)
     pure (.fnE t ps b, r)
+  | "tfn" :: t :: k :: r => do
+    let t ← nat? t; let k ← nat? k
+    if r.length < 2 * k + 1 then none else
+    let ps ← (r.take k).mapM nat?
+    let tys ← ((r.drop k).take k).mapM parseSTy
+    let rt ← parseSTy ((r.drop (2 * k)).headD "")
+    let (b, r) ← parseE (r.drop (2 * k + 1))
+    pure (.tfnE t ps tys rt b, r)
   | "named" :: b :: r => (parseBuiltin b).map fun v => (.named v, r)
   | "call" :: r => do
     let (f, r) ← parseE r
